@@ -453,3 +453,19 @@ func lemmaOriginRoundTrip(p []byte) ([]byte, int) {
 //@   loop 4: invariant fresh(refs)
 //@   loop 4: decreases len(refs) - i
 //@ spec macro rangedOverlap(r gts.Ranged, lo int, hi int) bool = min(r.Start, r.End) < max(lo, hi) && min(lo, hi) < max(r.Start, r.End)
+
+// The record-level reader (C07): no panic whatever the token contents.  The LOCUS line parser
+// is built from go-pars combinators; the shape of its result (seven children, the third an
+// int, the seventh a Date) is assumed, everything GenBankParser does with it is checked.
+//@ func genbankLocusParser(state *pars.State, result *pars.Result) (err error)
+//@   trusted built by pars.Seq(...).Children(1, 2, 4, 7, 9, 11, 13): on success the result has exactly those seven children, the length parsed by pars.Int and the date set by AsDate
+//@   requires !isnil(state) && !isnil(result)
+//@   ensures isnil(err) ==> len(result.Children) == 7 && is(result.Children[2].Value, int) && is(result.Children[6].Value, Date)
+//@   assigns result
+//@ func tryAllParsers$1(state *pars.State, result *pars.Result) (err error)
+//@   prop C07
+//@   requires !isnil(state) && !isnil(result)
+//@   loop 1: decreases len(pp) - idx1
+//@ func GenBankParser(state *pars.State, result *pars.Result) (err error)
+//@   prop C07
+//@   requires !isnil(state) && !isnil(result)
